@@ -119,7 +119,7 @@ def run(name, tier="quick", props=None, keep=False):
         shutil.rmtree(root, ignore_errors=True)
     meta.setdefault("checks", {})
     for prop, res in out.items():
-        meta["checks"][f"{prop}:{tier}"] = res
+        meta["checks"][f"{prop}:{tier}:seed{os.environ.get('VERIF_SEED', '0') or '0'}"] = res
     json.dump(meta, open(os.path.join(dst, "meta.json"), "w"), indent=1)
     return out
 
